@@ -2209,6 +2209,7 @@ package xpath
 //@   ensures[swf@C17] swf(s)
 //@   loop 0 invariant[swf@C17] swf(s)
 //@   requires[quote@C06] s.curr != 0
+//@   ensures[terminated@C17!!] at(0, s.curr) == old(s.curr)     // the scan loop was left on the closing quote (the character that opened the literal), not at the end of the input
 //@   ensures[progress@C06] smeas(s) < old(smeas(s))
 //@   loop * decreases len(s.text) - s.pos
 //@   loop * invariant[progress@C06] smeas(s) < old(smeas(s))
